@@ -364,6 +364,17 @@ func genTextItem(r *rng.R, d *doc, pool []*fontInfo) (it item, ok bool) {
 func genImage(r *rng.R) (image.Image, string) {
 	w, h := 1+r.Intn(4), 1+r.Intn(4)
 	kind := r.Intn(4)
+	if r.P(1, 12) {
+		// an image without pixels (one or both dimensions zero): the page content must stay balanced whatever is written for it
+		if r.Bool() {
+			w = 0
+		} else {
+			h = 0
+		}
+		if kind == 2 {
+			kind = 0
+		}
+	}
 	switch kind {
 	case 0: // opaque RGBA
 		im := image.NewRGBA(image.Rect(0, 0, w, h))
